@@ -245,8 +245,16 @@ func ruleRecover(w *World, r *Report, rule string) {
 			n++
 			con := fmt.Sprintf("%s#reflect-call/%d", fi.Name(), n)
 			r.Analysed(fi)
-			// a defer statement with a literal calling recover() and assigning &PanicError{Panic: r} to a named result, dominating the call
-			fl := w.FlowOf(fi)
+			// a defer statement with a literal calling recover() and assigning &PanicError{Panic: r} to a named result, dominating the call.
+			// The unit analysed is the innermost function (declaration or literal) that contains the call.
+			var body *ast.BlockStmt = fi.Decl.Body
+			ast.Inspect(fi.Decl.Body, func(x ast.Node) bool {
+				if lit, ok := x.(*ast.FuncLit); ok && lit.Body.Pos() <= c.Pos() && c.End() <= lit.Body.End() {
+					body = lit.Body
+				}
+				return true
+			})
+			fl := NewFlow(w, fi.Pkg, body, fi.Name())
 			var deferNode *ast.DeferStmt
 			good := false
 			for _, nd := range fl.Nodes() {
@@ -312,7 +320,13 @@ func ruleRecover(w *World, r *Report, rule string) {
 	fi := ro.createInstance
 	info := fi.Pkg.TypesInfo
 	mapped := false
-	ast.Inspect(fi.Decl.Body, func(x ast.Node) bool {
+	chain := &ast.BlockStmt{}
+	for _, g := range w.Within(fi, 2) {
+		if g == fi || (g != ro.setInstance && g != ro.setSingleton && g != ro.resolve && g != ro.resolveTop) {
+			chain.List = append(chain.List, g.Decl.Body)
+		}
+	}
+	ast.Inspect(chain, func(x ast.Node) bool {
 		if l, ok := x.(*ast.CompositeLit); ok {
 			if tv, ok := info.Types[l]; ok && isNamedType(tv.Type, modPath, "ConstructorPanicError") {
 				if v, ok := compositeFields(l)["Panic"]; ok {
@@ -329,7 +343,7 @@ func ruleRecover(w *World, r *Report, rule string) {
 		"createInstance does not build a ConstructorPanicError whose Panic field is the recovered value")
 	// the invocation error that is not a panic keeps its cause
 	wraps := false
-	ast.Inspect(fi.Decl.Body, func(x ast.Node) bool {
+	ast.Inspect(chain, func(x ast.Node) bool {
 		if l, ok := x.(*ast.CompositeLit); ok {
 			if tv, ok := info.Types[l]; ok && isNamedType(tv.Type, modPath, "ConstructorInvocationError") {
 				if v, ok := compositeFields(l)["Cause"]; ok {
